@@ -2,7 +2,7 @@
    counts of the counting specification, for every compiled diagram in unit order whose row locations are valid. *)
 From Coq Require Import List Arith Bool Lia QArith.
 From DS Require Import Util.ListX Model.ADD Spec.Count Model.Oracle Proofs.ADDProofs Proofs.ModelCount Proofs.OracleProofs.
-From DS Require Proofs.KnnShapley.
+From DS Require Proofs.KnnShapley Proofs.ShapleyAxioms.
 Import ListNotations.
 Local Close Scope Q_scope.
 
@@ -654,14 +654,24 @@ Proof.
   destruct k as [|k]; [reflexivity|]. cbn [Nat.eqb]. change (a_add t (Nat.iter k (fun e0 => a_add t e0 None) e) None = None).
   destruct (Nat.iter k (fun e0 => a_add t e0 None) e); reflexivity.
 Qed.
-Lemma fold_units_none t (x : list bool) : forall units e,
-  fold_left (fun e u => Nat.iter (if nth u x false then 0 else 1) (fun e => a_add t e None) e) units e
-  = if forallb (fun u => nth u x false) units then e else None.
+Lemma fold_units_none t (g : nat -> bool) : forall units e,
+  fold_left (fun e u => Nat.iter (if g u then 0 else 1) (fun e => a_add t e None) e) units e
+  = if forallb g units then e else None.
 Proof.
-  induction units as [|u units IH]; intros e; [reflexivity|]. cbn [fold_left forallb]. rewrite IH. destruct (nth u x false); cbn [andb]; [reflexivity|].
+  induction units as [|u units IH]; intros e; [reflexivity|]. cbn [fold_left forallb]. rewrite IH. destruct (g u); cbn [andb]; [reflexivity|].
   change (Nat.iter 1 (fun e0 => a_add t e0 None) e) with (a_add t e None).
-  destruct e; cbn [a_add]; destruct (forallb (fun u0 => nth u0 x false) units); reflexivity.
+  destruct e; cbn [a_add]; destruct (forallb g units); reflexivity.
 Qed.
+
+(* an assignment given in diagram (level) order, read in unit order *)
+Definition unit_view (d : add) (n : nat) (y : list bool) : list bool := map (fun u => nth (level_of d u) y false) (seq 0 n).
+Lemma unit_view_nth d n y u : u < n -> nth u (unit_view d n y) false = nth (level_of d u) y false.
+Proof.
+  intros H. unfold unit_view. rewrite (nth_indep _ false ((fun u0 => nth (level_of d u0) y false) 0)) by (rewrite map_length, seq_length; exact H).
+  rewrite (map_nth (fun u0 => nth (level_of d u0) y false)). rewrite seq_nth by exact H. reflexivity.
+Qed.
+Lemma unit_view_length d n y : length (unit_view d n y) = n.
+Proof. unfold unit_view. rewrite map_length, seq_length. reflexivity. Qed.
 
 (* sums of (0, one-hot, zeros) / (0, zeros, one-hot) vectors *)
 Lemma vadd_app : forall a b c d, length a = length b -> vadd (a ++ c) (b ++ d) = vadd a b ++ vadd c d.
@@ -700,6 +710,8 @@ Proof.
   - intros v Hv. apply in_map_iff in Hv. destruct Hv as [r [<- _]]. cbn [length]. destruct side; rewrite app_length, Hoh, repeat_length; lia.
 Qed.
 
+Lemma forallb_ext_in' {A} (f g : A -> bool) : forall l, (forall a, In a l -> f a = g a) -> forallb f l = forallb g l.
+Proof. induction l as [|a l IH]; intros H; [reflexivity|]. cbn [forallb]. rewrite (H a (or_introl eq_refl)), IH; [reflexivity|]. intros b Hb. apply H. right. exact Hb. Qed.
 Lemma fold_left_ext_in {A B} (f g : A -> B -> A) : forall l a, (forall a b, In b l -> f a b = g a b) -> fold_left f l a = fold_left g l a.
 Proof.
   induction l as [|b l IH]; intros a H; [reflexivity|]. cbn [fold_left]. rewrite (H a b (or_introl eq_refl)). apply IH.
@@ -719,10 +731,10 @@ Section Oracle.
   Hypothesis Ht : d_type d = p_type p.
   Hypothesis Hok : okd d.
   Hypothesis Hz : zero_adders d.
-  Hypothesis Hu : d_units d = seq 0 n.
+  Hypothesis Hlv : forall u, u < n -> level_of d u < n.
   Hypothesis Hlen : length (d_levels d) = n.
   Hypothesis Hlocs : forall x, length x = n -> forall r, r < R ->
-    hits d x (nth r locs []) = if row_present (nth r (p_rows p) []) x then 1 else 0.
+    hits d x (nth r locs []) = if row_present (nth r (p_rows p) []) (unit_view d n x) then 1 else 0.
   Hypothesis Hrows : forall r u, In u (nth r (p_rows p) []) -> u < n.
 
   Let within (tb : option nat) (tt : nat) : bool :=
@@ -743,11 +755,12 @@ Section Oracle.
   Lemma boundary_eval tb side x : length x = n ->
     okd (boundary_add p d locs tb side) /\ same d (boundary_add p d locs tb side) /\
     eval (boundary_add p d locs tb side) x
-    = if match tb with None => true | Some b => row_present (nth b (p_rows p) []) x end
-      then clip (p_type p) (0 :: (if side then label_tally p x tb ++ repeat 0 (p_classes p) else repeat 0 (p_classes p) ++ label_tally p x tb))
+    = if match tb with None => true | Some b => row_present (nth b (p_rows p) []) (unit_view d n x) end
+      then clip (p_type p) (0 :: (if side then label_tally p (unit_view d n x) tb ++ repeat 0 (p_classes p)
+                                  else repeat 0 (p_classes p) ++ label_tally p (unit_view d n x) tb))
       else None.
   Proof.
-    intros Hx.
+    intros Hx. set (X := unit_view d n x).
     set (L := fun tt : nat => nth tt locs []). set (F := fun (tt : nat) (a : aval) => a_add (p_type p) a (Some (vv side tt))).
     set (D1 := fold_left (fun acc tt => if within tb tt then update acc (L tt) (F tt) else acc) (seq 0 (length (p_rows p))) d).
     assert (EB : boundary_add p d locs tb side
@@ -756,22 +769,22 @@ Section Oracle.
       by (destruct side; reflexivity).
     (* the row increments *)
     assert (H1 : okd D1 /\ same d D1 /\
-                 eval D1 x = clip (p_type p) (0 :: (if side then label_tally p x tb ++ repeat 0 (p_classes p)
-                                                    else repeat 0 (p_classes p) ++ label_tally p x tb))).
+                 eval D1 x = clip (p_type p) (0 :: (if side then label_tally p X tb ++ repeat 0 (p_classes p)
+                                                    else repeat 0 (p_classes p) ++ label_tally p X tb))).
     { unfold D1. rewrite fold_left_filter.
       destruct (multi_update L F (fun tt => Some (vv side tt)) d) with (ks := filter (within tb) (seq 0 (length (p_rows p)))) (d0 := d)
         as [O [S E]]; [intros k a; rewrite Ht; reflexivity|intros k; rewrite Ht; apply vv_len|exact Hok|apply same_refl|].
       split; [exact O|]. split; [exact S|]. rewrite E. rewrite Ht.
-      rewrite (fold_left_ext_in _ (fun e tt => if row_present (nth tt (p_rows p) []) x then a_add (p_type p) e (Some (vv side tt)) else e)).
+      rewrite (fold_left_ext_in _ (fun e tt => if row_present (nth tt (p_rows p) []) X then a_add (p_type p) e (Some (vv side tt)) else e)).
       2:{ intros e tt Hin. apply filter_In in Hin. destruct Hin as [Hin _]. apply in_seq in Hin. unfold L. rewrite (Hlocs x Hx tt) by (unfold R; lia).
-          destruct (row_present (nth tt (p_rows p) []) x); reflexivity. }
+          fold X. destruct (row_present (nth tt (p_rows p) []) X); reflexivity. }
       rewrite fold_left_filter.
       rewrite (eval_zero_adders d x) by (try rewrite Ht; auto using t_zero). rewrite Ht.
       rewrite <- (fold_left_map (vv side) (fun e v => a_add (p_type p) e (Some v))).
       assert (Ez : a_zero (p_type p) = clip (p_type p) (repeat 0 (length (a_max (p_type p))))) by (unfold clip, a_zero; rewrite t_zero; reflexivity).
       rewrite Ez, fold_a_add_clip; [|apply repeat_length|intros v Hv; apply in_map_iff in Hv; destruct Hv as [tt [<- _]]; apply vv_len].
       f_equal. rewrite t_len. unfold vv. rewrite (total_side (p_classes p) oh side) by (intros r; apply onehot_length_c). f_equal.
-      assert (El : label_tally p x tb = vsum (p_classes p) (map oh (filter (row_present_at x) (filter (within tb) (seq 0 (length (p_rows p))))))).
+      assert (El : label_tally p X tb = vsum (p_classes p) (map oh (filter (row_present_at X) (filter (within tb) (seq 0 (length (p_rows p))))))).
       { unfold label_tally. rewrite KnnShapley.filter_filter'. rewrite <- (KnnShapley.vsum_filter (p_classes p) _ oh) by (intros r; apply onehot_length_c).
         f_equal. apply map_ext. intros r. unfold row_present_at, within. rewrite andb_comm. reflexivity. }
       rewrite El. reflexivity. }
@@ -779,10 +792,12 @@ Section Oracle.
     destruct (multi_update (fun u => live_locs d (level_of d u) false) (fun (_ : nat) (_ : aval) => None) (fun _ => None) d)
       with (ks := nth b (p_rows p) []) (d0 := D1) as [O [S E]]; [intros k a; destruct a; reflexivity|intros k; exact I|exact O1|exact S1|].
     split; [exact O|]. split; [exact S|]. rewrite E.
-    rewrite (fold_left_ext_in _ (fun e u => Nat.iter (if nth u x false then 0 else 1) (fun e => a_add (d_type d) e None) e)).
-    2:{ intros e u Hin. pose proof (Hrows b u Hin) as Hun. rewrite (level_of_seq d n u Hu Hun).
+    rewrite (fold_left_ext_in _ (fun e u => Nat.iter (if nth (level_of d u) x false then 0 else 1) (fun e => a_add (d_type d) e None) e)).
+    2:{ intros e u Hin. pose proof (Hrows b u Hin) as Hun. pose proof (Hlv u Hun) as Hl.
         rewrite hits_live_locs by (try exact Hok; lia). reflexivity. }
-    rewrite fold_units_none, E1. reflexivity.
+    rewrite (fold_units_none (d_type d) (fun u => nth (level_of d u) x false)), E1.
+    replace (forallb (fun u => nth (level_of d u) x false) (nth b (p_rows p) [])) with (row_present (nth b (p_rows p) []) X); [reflexivity|].
+    unfold row_present. apply forallb_ext_in'. intros u Hin. unfold X. apply unit_view_nth. apply (Hrows b u Hin).
   Qed.
 End Oracle.
 
@@ -808,26 +823,129 @@ Qed.
 Lemma insert_bit_len i b x : i <= length x -> length (insert_bit i b x) = S (length x).
 Proof. intros H. unfold insert_bit. rewrite app_length, firstn_length, Nat.min_l by lia. cbn [length]. rewrite skipn_length. lia. Qed.
 
-Theorem oracle_exact p d locs target t1 t2 :
-  d_type d = p_type p -> okd d -> zero_adders d -> d_units d = seq 0 (p_units p) -> length (d_levels d) = p_units p ->
-  (forall x, length x = p_units p -> forall r, r < length (p_rows p) ->
-     hits d x (nth r locs []) = if row_present (nth r (p_rows p) []) x then 1 else 0) ->
+(* removing / inserting one position *)
+Definition remove_at {A} (i : nat) (l : list A) : list A := firstn i l ++ skipn (S i) l.
+Lemma insert_remove : forall i (l : list bool), i < length l -> insert_bit i (nth i l false) (remove_at i l) = l.
+Proof.
+  unfold insert_bit, remove_at. induction i as [|i IH]; intros [|a l] H; cbn in H; try lia; [reflexivity|].
+  cbn [nth firstn skipn app]. f_equal. change (skipn (S i) l) with (skipn (S i) l). apply IH. lia.
+Qed.
+Lemma remove_insert : forall i b (l : list bool), i <= length l -> remove_at i (insert_bit i b l) = l.
+Proof.
+  unfold insert_bit, remove_at. induction i as [|i IH]; intros b l H; [reflexivity|]. destruct l as [|a l]; [cbn in H; lia|].
+  cbn [firstn skipn app]. f_equal. apply IH. cbn in H. lia.
+Qed.
+Lemma nth_insert_same : forall i b (l : list bool), i <= length l -> nth i (insert_bit i b l) false = b.
+Proof.
+  unfold insert_bit. induction i as [|i IH]; intros b l H; [reflexivity|]. destruct l as [|a l]; [cbn in H; lia|]. cbn [firstn skipn app nth]. apply IH. cbn in H. lia.
+Qed.
+Lemma nth_insert_other : forall i b b' (l : list bool) k, i <= length l -> k <> i -> nth k (insert_bit i b l) false = nth k (insert_bit i b' l) false.
+Proof.
+  unfold insert_bit. induction i as [|i IH]; intros b b' l k Hi Hk.
+  - destruct k; [lia|reflexivity].
+  - destruct l as [|a l]; [cbn in Hi; lia|]. cbn [firstn skipn app].
+    destruct k as [|k]; [reflexivity|]. cbn [nth]. apply IH; [cbn in Hi; lia|lia].
+Qed.
+Lemma nth_remove_at {A} (d0 : A) : forall i (l : list A) k, nth k (remove_at i l) d0 = if k <? i then nth k l d0 else nth (S k) l d0.
+Proof.
+  unfold remove_at. induction i as [|i IH]; intros l k.
+  - cbn [firstn app Nat.ltb Nat.leb]. destruct l as [|a l]; [destruct k; reflexivity|]. reflexivity.
+  - destruct l as [|a l].
+    + cbn [firstn skipn app]. destruct (k <? S i); destruct k; reflexivity.
+    + cbn [firstn skipn app]. destruct k as [|k]; [reflexivity|]. cbn [nth]. rewrite IH. change (S k <? S i) with (k <? i). reflexivity.
+Qed.
+Lemma remove_at_length {A} i (l : list A) : i < length l -> S (length (remove_at i l)) = length l.
+Proof. intros H. unfold remove_at. rewrite app_length, firstn_length, skipn_length. lia. Qed.
+Lemma remove_at_ext i (l l' : list bool) : length l = length l' -> i < length l ->
+  (forall k, k <> i -> nth k l false = nth k l' false) -> remove_at i l = remove_at i l'.
+Proof.
+  intros HL Hi H. apply (nth_ext _ _ false false).
+  - pose proof (remove_at_length i l Hi). pose proof (remove_at_length i l' ltac:(lia)). lia.
+  - intros k _. rewrite !nth_remove_at. destruct (Nat.ltb_spec k i); apply H; lia.
+Qed.
+Lemma count_true_insert i b (l : list bool) : count_true (insert_bit i b l) = (if b then 1 else 0) + count_true l.
+Proof.
+  unfold count_true, insert_bit. rewrite <- (firstn_skipn i l) at 3. rewrite !filter_app, !app_length. cbn [filter]. destruct b; cbn [length]; lia.
+Qed.
+Lemma count_true_perm (l l' : list bool) : Permutation.Permutation l l' -> count_true l = count_true l'.
+Proof.
+  intros P. unfold count_true. induction P as [|x l l' P IH|x y l|l l' l'' P1 IH1 P2 IH2]; cbn [filter]; try congruence.
+  - destruct x; cbn [length]; congruence.
+  - destruct x, y; reflexivity.
+Qed.
+Lemma map_nth_id (y : list bool) : map (fun k => nth k y false) (seq 0 (length y)) = y.
+Proof.
+  apply (nth_ext _ _ false false); [rewrite map_length, seq_length; reflexivity|]. intros k Hk. rewrite map_length, seq_length in Hk.
+  rewrite (nth_indep _ false ((fun k0 => nth k0 y false) 0)) by (rewrite map_length, seq_length; exact Hk).
+  rewrite (map_nth (fun k0 => nth k0 y false)), seq_nth by exact Hk. reflexivity.
+Qed.
+
+Section UnitOrder.
+  Variables (d : add) (n : nat).
+  Hypothesis Hperm : Permutation.Permutation (map (level_of d) (seq 0 n)) (seq 0 n).
+
+  Lemma lv_lt u : u < n -> level_of d u < n.
+  Proof.
+    intros H. assert (Hin : In (level_of d u) (map (level_of d) (seq 0 n))) by (apply in_map, in_seq; lia).
+    apply (Permutation.Permutation_in _ Hperm) in Hin. apply in_seq in Hin. lia.
+  Qed.
+  Lemma lv_inj u u' : u < n -> u' < n -> level_of d u = level_of d u' -> u = u'.
+  Proof.
+    intros H H' E. assert (Hnd : NoDup (map (level_of d) (seq 0 n))) by (apply (Permutation.Permutation_NoDup (Permutation.Permutation_sym Hperm)), seq_NoDup).
+    apply (proj1 (NoDup_nth _ 0) Hnd); rewrite ?map_length, ?seq_length; try assumption.
+    rewrite !(nth_indep _ 0 (level_of d 0)) by (rewrite map_length, seq_length; assumption).
+    rewrite !(map_nth (level_of d)), !seq_nth by assumption. exact E.
+  Qed.
+  Lemma lv_surj k : k < n -> exists u, u < n /\ level_of d u = k.
+  Proof.
+    intros H. assert (Hin : In k (map (level_of d) (seq 0 n))) by (apply (Permutation.Permutation_in _ (Permutation.Permutation_sym Hperm)), in_seq; lia).
+    apply in_map_iff in Hin. destruct Hin as [u [E Hu]]. apply in_seq in Hu. exists u. split; [lia|exact E].
+  Qed.
+  Lemma unit_view_perm y : length y = n -> Permutation.Permutation (unit_view d n y) y.
+  Proof.
+    intros Hy. unfold unit_view. rewrite <- (map_map (level_of d) (fun k => nth k y false)).
+    eapply Permutation.Permutation_trans; [apply Permutation.Permutation_map; exact Hperm|]. rewrite <- Hy, map_nth_id. apply Permutation.Permutation_refl.
+  Qed.
+  Lemma unit_view_inj z1 z2 : length z1 = n -> length z2 = n -> unit_view d n z1 = unit_view d n z2 -> z1 = z2.
+  Proof.
+    intros H1 H2 E. apply (nth_ext _ _ false false); [congruence|]. intros k Hk. rewrite H1 in Hk.
+    destruct (lv_surj k Hk) as [u [Hu <-]]. rewrite <- !(unit_view_nth d n _ u Hu). rewrite E. reflexivity.
+  Qed.
+End UnitOrder.
+
+Lemma histogram_perm t vals vals' : Permutation.Permutation vals vals' -> histogram t vals = histogram t vals'.
+Proof.
+  intros P. unfold histogram. apply map_ext. intros e. apply Permutation.Permutation_length.
+  induction P as [|x l l' P IH|x y l|l l' l'' P1 IH1 P2 IH2]; cbn [filter].
+  - apply Permutation.Permutation_refl.
+  - destruct (a_eqb e x); [apply Permutation.perm_skip|]; exact IH.
+  - destruct (a_eqb e y), (a_eqb e x); try apply Permutation.Permutation_refl. apply Permutation.perm_swap.
+  - eapply Permutation.Permutation_trans; eassumption.
+Qed.
+
+(* the general statement: any order of the units over the levels *)
+Theorem oracle_exact_order p d locs target t1 t2 :
+  d_type d = p_type p -> okd d -> zero_adders d ->
+  Permutation.Permutation (map (level_of d) (seq 0 (p_units p))) (seq 0 (p_units p)) -> length (d_levels d) = p_units p ->
+  (forall y, length y = p_units p -> forall r, r < length (p_rows p) ->
+     hits d y (nth r locs []) = if row_present (nth r (p_rows p) []) (unit_view d (p_units p) y) then 1 else 0) ->
   (forall r u, In u (nth r (p_rows p) []) -> u < p_units p) ->
   2 <= p_units p -> target < p_units p ->
   oracle_query p d locs target t1 t2 = Some (count_spec p target t1 t2).
 Proof.
-  intros Ht Hok Hz Hu Hlen Hlocs Hrows Hn Htg. set (n := p_units p) in *. set (t := p_type p).
-  unfold oracle_query. rewrite (level_of_seq d n target Hu Htg).
+  intros Ht Hok Hz Hperm Hlen Hlocs Hrows Hn Htg. set (n := p_units p) in *. set (t := p_type p).
+  assert (Hlv := lv_lt d n Hperm).
+  unfold oracle_query. set (lt := level_of d target). assert (Hlt : lt < n) by (apply Hlv; exact Htg).
   set (BW := boundary_add p d locs (Some t1) true). set (BO := boundary_add p d locs t2 false).
-  assert (HW := fun x Hx => boundary_eval p d locs Ht Hok Hz Hu Hlen Hlocs Hrows (Some t1) true x Hx). fold BW in HW.
-  assert (HO := fun x Hx => boundary_eval p d locs Ht Hok Hz Hu Hlen Hlocs Hrows t2 false x Hx). fold BO in HO.
+  assert (HW := fun x Hx => boundary_eval p d locs Ht Hok Hz Hlv Hlen Hlocs Hrows (Some t1) true x Hx). fold BW in HW.
+  assert (HO := fun x Hx => boundary_eval p d locs Ht Hok Hz Hlv Hlen Hlocs Hrows t2 false x Hx). fold BO in HO.
   destruct (HW (repeat false n) (repeat_length _ _)) as [OW [SW _]]. destruct (HO (repeat false n) (repeat_length _ _)) as [OO [SO _]].
   assert (LW : length (d_levels BW) = n) by (rewrite (same_length d BW SW); exact Hlen).
   assert (LO : length (d_levels BO) = n) by (rewrite (same_length d BO SO); exact Hlen).
   assert (TW : d_type BW = t) by (destruct SW as [A _]; rewrite A; exact Ht).
   assert (TO : d_type BO = t) by (destruct SO as [A _]; rewrite A; exact Ht).
-  destruct (restrict_ok BW target true OW) as [dw [Ew [Odw [Tdw [Ldw Vdw]]]]]; [lia|lia|].
-  destruct (restrict_ok BO target false OO) as [dwo [Eo [Odwo [Tdwo [Ldwo Vdwo]]]]]; [lia|lia|].
+  destruct (restrict_ok BW lt true OW) as [dw [Ew [Odw [Tdw [Ldw Vdw]]]]]; [lia|lia|].
+  destruct (restrict_ok BO lt false OO) as [dwo [Eo [Odwo [Tdwo [Ldwo Vdwo]]]]]; [lia|lia|].
   rewrite Ew, Eo. f_equal.
   destruct (sum_ok dw dwo Odw Odwo) as [Os [Ts Ls]]; [congruence|lia|].
   set (D := add_sum dw dwo) in *.
@@ -839,14 +957,51 @@ Proof.
   assert (LB : length (d_levels DB) = n - 1) by (rewrite (same_length D DB Sb), Ls; lia).
   destruct Ob as [WB [RB GB]].
   rewrite (modelcount_histogram DB); [|rewrite TB; apply t_wf|exact WB|apply good_live_w; exact GB].
-  unfold count_spec. rewrite TB, LB. fold t. fold n. f_equal. apply map_ext_in. intros x Hx. apply bmasks_lengths in Hx.
+  unfold count_spec. rewrite TB, LB. fold t. fold n.
+  (* the assignment of the other units, in unit order, that a diagram-order assignment stands for *)
+  set (phi := fun y' : list bool => remove_at target (unit_view d n (insert_bit lt false y'))).
+  assert (Hphi : forall y', length y' = n - 1 ->
+            insert_bit target true (phi y') = unit_view d n (insert_bit lt true y')
+            /\ insert_bit target false (phi y') = unit_view d n (insert_bit lt false y')
+            /\ count_true (phi y') = count_true y' /\ length (phi y') = n - 1).
+  { intros y' Hy. set (zo := insert_bit lt false y'). set (zw := insert_bit lt true y').
+    assert (Lzo : length zo = n) by (unfold zo; rewrite insert_bit_len; lia).
+    assert (Lzw : length zw = n) by (unfold zw; rewrite insert_bit_len; lia).
+    assert (Bo : nth target (unit_view d n zo) false = false) by (rewrite unit_view_nth by exact Htg; apply nth_insert_same; lia).
+    assert (Bw : nth target (unit_view d n zw) false = true) by (rewrite unit_view_nth by exact Htg; apply nth_insert_same; lia).
+    assert (Eo' : insert_bit target false (phi y') = unit_view d n zo).
+    { unfold phi. fold zo. rewrite <- Bo at 1. apply insert_remove. rewrite unit_view_length. exact Htg. }
+    assert (Er : remove_at target (unit_view d n zw) = remove_at target (unit_view d n zo)).
+    { apply remove_at_ext; rewrite ?unit_view_length; try reflexivity; try exact Htg. intros k Hk.
+      destruct (Nat.lt_ge_cases k n) as [Hkn|Hkn].
+      - rewrite !unit_view_nth by exact Hkn. apply nth_insert_other; [lia|]. intros E. apply Hk. apply (lv_inj d n Hperm k target Hkn Htg E).
+      - rewrite !nth_overflow by (rewrite unit_view_length; exact Hkn). reflexivity. }
+    split; [|split; [exact Eo'|split]].
+    - unfold phi. fold zo. rewrite <- Er. rewrite <- Bw at 1. apply insert_remove. rewrite unit_view_length. exact Htg.
+    - assert (C1 : count_true (unit_view d n zo) = count_true zo) by (apply count_true_perm, (unit_view_perm d n Hperm); exact Lzo).
+      rewrite <- Eo', count_true_insert in C1. unfold zo in C1. rewrite count_true_insert in C1. cbn in C1. exact C1.
+    - unfold phi. fold zo. pose proof (remove_at_length target (unit_view d n zo)) as HL. rewrite unit_view_length in HL. specialize (HL Htg). lia. }
+  assert (Ppm : Permutation.Permutation (map phi (bmasks (n - 1))) (bmasks (n - 1))).
+  { apply Permutation.NoDup_Permutation_bis.
+    - apply KnnShapley.NoDup_map_inj.
+      2:{ intros y1 y2 H1 H2 E. apply bmasks_lengths in H1. apply bmasks_lengths in H2.
+        destruct (Hphi y1 H1) as [_ [A1 _]]. destruct (Hphi y2 H2) as [_ [A2 _]]. rewrite E in A1. rewrite A1 in A2.
+        apply (unit_view_inj d n Hperm) in A2; [|rewrite insert_bit_len; lia|rewrite insert_bit_len; lia].
+        rewrite <- (remove_insert lt false y1), <- (remove_insert lt false y2) by lia. rewrite A2. reflexivity. }
+      rewrite <- KnnShapley.masks_bmasks. apply ShapleyAxioms.masks_nodup.
+    - rewrite map_length. lia.
+    - intros x Hx. apply in_map_iff in Hx. destruct Hx as [y' [<- Hy']]. apply bmasks_lengths in Hy'. destruct (Hphi y' Hy') as [_ [_ [_ L]]].
+      rewrite <- KnnShapley.masks_bmasks. apply ShapleyAxioms.masks_length. exact L. }
+  rewrite <- (histogram_perm t _ _ (Permutation.Permutation_map (tally_of p target t1 t2) Ppm)). rewrite map_map.
+  f_equal. apply map_ext_in. intros x Hx. apply bmasks_lengths in Hx.
+  destruct (Hphi x Hx) as [Pw [Po [Pc _]]].
   rewrite Vb by (rewrite Ls; lia). rewrite Ts, Tdw, TW.
   unfold D. rewrite eval_sum; [|congruence|lia|destruct Odw; assumption|rewrite Tdw, TW, <- TO, <- Tdwo; destruct Odwo; assumption|rewrite Tdw, TW; apply t_zero].
   rewrite Tdw, TW. rewrite Vdw, Vdwo by lia.
-  assert (Lxw : length (insert_bit target true x) = n) by (rewrite insert_bit_len; lia).
-  assert (Lxo : length (insert_bit target false x) = n) by (rewrite insert_bit_len; lia).
-  destruct (HW _ Lxw) as [_ [_ EW]]. destruct (HO _ Lxo) as [_ [_ EO]]. rewrite EW, EO.
-  unfold tally_of. set (xw := insert_bit target true x). set (xo := insert_bit target false x).
+  assert (Lxw : length (insert_bit lt true x) = n) by (rewrite insert_bit_len; lia).
+  assert (Lxo : length (insert_bit lt false x) = n) by (rewrite insert_bit_len; lia).
+  destruct (HW _ Lxw) as [_ [_ EW]]. destruct (HO _ Lxo) as [_ [_ EO]]. rewrite EW, EO. fold n.
+  unfold tally_of. rewrite Pw, Po, Pc. set (xw := unit_view d n (insert_bit lt true x)). set (xo := unit_view d n (insert_bit lt false x)).
   destruct (row_present (nth t1 (p_rows p) []) xw); cbn [andb]; [|cbn [a_add]; apply iter_from_none].
   destruct (match t2 with Some t0 => row_present (nth t0 (p_rows p) []) xo | None => true end);
     [|unfold clip; destruct (inb _ _); cbn [a_add]; apply iter_from_none].
@@ -866,6 +1021,24 @@ Proof.
   - f_equal. rewrite (fold_vadd_ones (2 * p_classes p)); [reflexivity|]. rewrite app_length, L1, L2. lia.
   - unfold t. rewrite t_len. cbn [length]. rewrite app_length, L1, L2. lia.
   - intros v Hv. apply repeat_spec in Hv. subst v. unfold t. rewrite t_len. cbn [length]. rewrite repeat_length. reflexivity.
+Qed.
+
+(* units in provenance order *)
+Theorem oracle_exact p d locs target t1 t2 :
+  d_type d = p_type p -> okd d -> zero_adders d -> d_units d = seq 0 (p_units p) -> length (d_levels d) = p_units p ->
+  (forall x, length x = p_units p -> forall r, r < length (p_rows p) ->
+     hits d x (nth r locs []) = if row_present (nth r (p_rows p) []) x then 1 else 0) ->
+  (forall r u, In u (nth r (p_rows p) []) -> u < p_units p) ->
+  2 <= p_units p -> target < p_units p ->
+  oracle_query p d locs target t1 t2 = Some (count_spec p target t1 t2).
+Proof.
+  intros Ht Hok Hz Hu Hlen Hlocs Hrows Hn Htg.
+  assert (Eid : map (level_of d) (seq 0 (p_units p)) = seq 0 (p_units p)).
+  { rewrite <- (map_id (seq 0 (p_units p))) at 2. apply map_ext_in. intros u Hin. apply in_seq in Hin. apply (level_of_seq d (p_units p)); [exact Hu|lia]. }
+  apply oracle_exact_order; try assumption.
+  - rewrite Eid. apply Permutation.Permutation_refl.
+  - intros y Hy r Hr. rewrite (Hlocs y Hy r Hr). replace (unit_view d (p_units p) y) with y; [reflexivity|].
+    unfold unit_view. rewrite <- (map_map (level_of d) (fun k => nth k y false)), Eid, <- Hy. symmetry. apply map_nth_id.
 Qed.
 
 (* ---------- 12. compile(), chain case: one unit per row ---------- *)
